@@ -109,6 +109,155 @@ def c02(ctx):
     return "model_checking"
 
 
+def name_all(e):
+    """the all-named twin of a pattern: every group named x1.., every reference by name"""
+    if isinstance(e, dict):
+        out = {k: name_all(v) for k, v in e.items()}
+        if out.get("k") in ("grp", "bref", "bex"):
+            out["named"] = True
+        return out
+    if isinstance(e, list):
+        return [name_all(x) for x in e]
+    return e
+
+
+def run_simple(ctx, module, name, cmd, recs, texts_path, shards=16, what="records"):
+    """harness command -> shard files -> TLC module with STATS/REJECT/CERR emits"""
+    d = common.workdir(ctx.prop)
+    asts = os.path.join(d, name + ".asts.ndjson")
+    common.write_ndjson(asts, recs)
+    prefix = os.path.join(d, name + "." + cmd)
+    common.clean_prefix(prefix)
+    shards = max(1, min(shards, (len(recs) + 39) // 40))
+    args = [cmd, "--asts", asts, "--out", prefix, "--shards", shards]
+    if texts_path:
+        args += ["--texts", texts_path]
+    common.vh(args)
+    rs = tlc.run_shards(module, [dict(VH_RECS="%s.%d.ndjson" % (prefix, i), VH_TEXTS=texts_path or "") for i in range(shards)])
+    tlc.require_clean(rs, "%s(%s)" % (module, name))
+    ctx.add_tlc(rs)
+    stats, rejects, cerr = {}, [], []
+    for r in rs:
+        for k, v in r.tagged("STATS")[0].items():
+            stats[k] = stats.get(k, 0) + v
+        rejects += r.tagged("REJECT")
+        cerr += r.tagged("CERR")
+        if r.tagged("LEMMAFAIL"):
+            raise ToolError("%s(%s): a spec-level lemma was refuted by TLC: %s" % (module, name, r.tagged("LEMMAFAIL")[0]))
+    if stats["records"] != len(recs):
+        raise ToolError("%s(%s): %d records validated, %d expected" % (module, name, stats["records"], len(recs)))
+    ctx.cov.setdefault("spaces", {})[name] = stats
+    ctx.traces += stats["ok"]
+    with open(prefix + ".0.ndjson") as f:
+        line = f.readline()
+        if line:
+            r = json.loads(line)
+            ctx.samples.append({k: (v if not isinstance(v, list) else v[:3]) for k, v in r.items() if k not in ("ast",)})
+    return stats, rejects, cerr
+
+
+@check("C16")
+def c16(ctx):
+    ctx.rule = ("records = per pattern captures_len and capture_names, per (pattern, text) with a match: Captures::len, iter(), get(0..len+1), name(n) for every "
+                "name and for an unknown name; expected counts and names are computed by TLC from the AST (numbering = opening-parenthesis order); patterns: "
+                "unrestricted grammar and contexts x fillers, each also as its all-named twin, so that delegated and VM-compiled engines are both reached; "
+                "non-trivial = matches inspected")
+    t2 = texts("sig6", 2)
+    wild = []
+    for n in (1, 2, 3):
+        wild += read_ndjson(pats("wild", n))
+    cf = read_ndjson(pats("ctxfill", 0))
+    plain = read_ndjson(pats("plain", 3))
+    def twins(recs):
+        out = []
+        for r in recs:
+            out.append(r)
+            if r["ng"] > 0:
+                out.append(dict(r, ast=name_all(r["ast"])))
+        return renumber_ids(out)
+    if ctx.quick:
+        spaces = [("wild123", twins(sample(ctx, wild, 700))), ("ctxfill", twins(sample(ctx, cf, 900))), ("plain3", twins(sample(ctx, plain, 600))),
+                  ("random_wild", randgen.random_pats(ctx.rng, "wild", 800, depth=3))]
+    else:
+        spaces = [("wild123", twins(wild)), ("ctxfill", twins(cf)), ("plain3", twins(plain)), ("wild4", twins(sample(ctx, read_ndjson(pats("wild", 4)), 20000))),
+                  ("random_wild", randgen.random_pats(ctx.rng, "wild", 20000, depth=4, max_nodes=16))]
+    for name, recs in spaces:
+        stats, rejects, cerr = run_simple(ctx, "TraceMeta", name, "meta", recs, t2)
+        ctx.evaluations += stats["matches"] + stats["records"]
+        ctx.nontrivial += stats["matches"]
+        for j in rejects:
+            ctx.violation("pattern %s: group metadata inconsistent (captures_len=%s names=%s bad match=%s)" % (j["pat"], j["clen"], j["names"], j["bad_match"]),
+                          dict(kind="meta", ast=j["ast"], ng=j["ng"], pat=j["pat"], texts=t2, got=j))
+    ctx.exhaustive = False
+    ctx.assumptions = ["group numbering = opening-parenthesis order is part of Ast.tla (WellNumbered) and exported spaces satisfy it"]
+    return "model_checking"
+
+
+@check("C17")
+def c17(ctx):
+    ctx.rule = ("records = for every string s of the space (exported by TLC): escape(s) and its Cow variant; the escaped string compiled alone and inside 5 "
+                "host patterns (group + back-reference, look-ahead, look-behind, lazy prefix + VM suffix, atomic group) and searched in 6 haystacks derived from s; "
+                "TLC recomputes escape, the borrow rule and every span from RefSem on the intended AST (literal sequence), and checks the lemma "
+                "Search(LitSeq(s)) = str::find; alphabet: the 15 specials, letter, digit, space, LF, 2/3/4-byte characters, '-', '&'; non-trivial = strings needing an escape")
+    n = 2 if ctx.quick else 3
+    recs = read_ndjson(common.export("escapes_%d" % n, "escapes", n))
+    alpha = ["\\", ".", "+", "*", "?", "(", ")", "|", "[", "]", "{", "}", "^", "$", "#", "a", "1", "S", "N", "E", "T", "Q", "D", "&"]
+    hosts = recs[0]["hosts"]
+    def hay(s):
+        return [s, ["a"] + s, s + s, ["a"] + s + ["E"] + s + ["a"], s[1:] + s, ["a", "E"]]
+    rnd = []
+    for i in range(4000 if ctx.quick else 60000):
+        s = [ctx.rng.choice(alpha) for _ in range(ctx.rng.randint(n + 1, 7))]
+        rnd.append(dict(id=i + 1, s=s, hay=hay(s), hosts=hosts))
+    for name, rs_ in (("exhaustive_le%d" % n, recs), ("random", rnd)):
+        stats, rejects, cerr = run_simple(ctx, "TraceEscape", name, "escape", rs_, None)
+        ctx.evaluations += stats["expected_rows"]
+        ctx.nontrivial += stats["needing_escape"]
+        for j in rejects:
+            ctx.violation("escape(%s): escaped=%s expected=%s borrowed=%s; expected-not-found %s; found-not-expected %s (row = host, haystack, status, start, end)"
+                          % ("".join(j["s"]), "".join(j["esc"]), "".join(j["expected_esc"]), j["borrowed"], j["expected_not_logged"], j["logged_not_expected"]),
+                          dict(kind="escape", s=j["s"], got=j))
+    ctx.exhaustive = True
+    ctx.cov["exhaustive_note"] = "all strings up to length %d over the 24-symbol alphabet; longer strings sampled; the haystack derivation of the random part is repeated in the driver" % n
+    ctx.assumptions = ["Escape.tla: set of special characters and hosts; RefSem for the meaning of the hosts"]
+    return "model_checking"
+
+
+@check("C14")
+def c14(ctx):
+    ctx.rule = ("case records = one pattern built four ways (builder case_insensitive(true), (?i) prefix, builder without option, case_insensitive(false)) and "
+                "run over all texts over {a,A,b,B} x offsets, all groups; expected by TLC: Search(ApplyCasei(P)) for the first two, Search(P) for the others; "
+                "patterns: mixed-case grammar with (?i:..) and (?-i:..) nodes, plain and fancy (look-arounds, atomic groups, back-references), exhaustive to the "
+                "node bound + random; size records = delegate_size_limit(100) and default on 2 pieces x 6 hosts; non-trivial = matching cells")
+    tc = texts("case4", 3)
+    small = []
+    for n in (1, 2, 3):
+        small += read_ndjson(pats("case", n))
+    size = read_ndjson(common.export("sizefix", "sizefix", 0))
+    if ctx.quick:
+        spaces = [("case123", size + renumber_ids(sample(ctx, small, 1400))), ("random", randgen.random_pats(ctx.rng, "casei", 600, depth=3))]
+    else:
+        spaces = [("case123", size + renumber_ids(small)), ("case4", renumber_ids(sample(ctx, read_ndjson(pats("case", 4)), 12000))),
+                  ("random", randgen.random_pats(ctx.rng, "casei", 10000, depth=4, max_nodes=16))]
+    excl = "".join(common.excl_classes("C14"))
+    nvac = None
+    for name, recs in spaces:
+        os.environ["VH_EXCL"] = excl
+        stats, rejects, cerr = run_simple(ctx, "TraceOpts", name, "opts", recs, tc)
+        ctx.evaluations += stats["matching_cells"]
+        ctx.nontrivial += stats["matching_cells"]
+        if name == "case123":
+            nvac = stats["vacuous_size_fixtures"]
+        for j in rejects:
+            ctx.violation("pattern %s: build %s differs from the specification: %s" % (j["pat"], j["what"], j["got"]),
+                          dict(kind="opts", ast=j["ast"], ng=j["ng"], pat=j["pat"], got=j))
+    if nvac:
+        raise ToolError("size-limit fixture is vacuous: the tiny limit does not reject the piece alone")
+    ctx.exhaustive = False
+    ctx.assumptions = ["Options.tla: case_insensitive(true) == (?i) prefix; a host is rejected under a size limit iff its big delegated piece alone is"]
+    return "model_checking"
+
+
 @check("C15")
 def c15(ctx):
     excl = "".join(common.excl_classes("C15"))
@@ -433,6 +582,37 @@ def replay(ctx, path):
         rej = rs[0].tagged("REJECT")
         print(json.dumps(rej, indent=1))
         if rej:
+            print("VIOLATION property=%s replay=%s" % (ctx.prop, path))
+            return 1
+        return 0
+    if d.get("kind") == "escape":
+        s_ = d["s"]
+        hosts = read_ndjson(common.export("escapes_2", "escapes", 2))[0]["hosts"]
+        rec = dict(id=1, s=s_, hay=[s_, ["a"] + s_, s_ + s_, ["a"] + s_ + ["E"] + s_ + ["a"], s_[1:] + s_, ["a", "E"]], hosts=hosts)
+        sub = common.Ctx(ctx.prop, ctx.tier, ctx.seed)
+        stats, rejects, cerr = run_simple(sub, "TraceEscape", "replay", "escape", [rec], None, shards=1)
+        print(json.dumps(rejects, indent=1))
+        if rejects:
+            print("VIOLATION property=%s replay=%s" % (ctx.prop, path))
+            return 1
+        return 0
+    if d.get("kind") == "meta":
+        sub = common.Ctx(ctx.prop, ctx.tier, ctx.seed)
+        stats, rejects, cerr = run_simple(sub, "TraceMeta", "replay", "meta", [{"id": 1, "ast": d["ast"], "ng": d["ng"]}], d["texts"], shards=1)
+        print(json.dumps(rejects, indent=1))
+        if rejects:
+            print("VIOLATION property=%s replay=%s" % (ctx.prop, path))
+            return 1
+        return 0
+    if d.get("kind") == "iters":
+        sub = common.Ctx(ctx.prop, ctx.tier, ctx.seed)
+        rec = {"id": 1, "ast": d["ast"], "ng": d["ng"]}
+        if d.get("bl", -1) >= 0:
+            rec["bl"] = d["bl"]
+        res = iterp.run_iters(sub, "replay", [rec], d["texts"], d["part"], excl="", shards=1, regex=d.get("regex", False),
+                              parts=("fi,ci,sp,co,rows,rp" if d["part"] == "x4" else None))
+        print(json.dumps(res["rejects"], indent=1))
+        if res["rejects"]:
             print("VIOLATION property=%s replay=%s" % (ctx.prop, path))
             return 1
         return 0
